@@ -70,7 +70,7 @@ func genC19(r *R, seed uint64, idx int, tier string) *Scenario {
 		{"PATCH", "/process/scale/" + valid + "/abc", ""}, {"PATCH", "/process/scale/" + valid + "/0", ""}, {"PATCH", "/process/scale/" + valid + "/-3", ""},
 		{"PATCH", "/process/scale/" + valid + "/99999999999999999999", ""}, {"PATCH", "/process/scale/" + valid + "/2.5", ""},
 		{"POST", "/project", "{"}, {"POST", "/project", "[]"}, {"POST", "/project", `{"processes": 5}`}, {"POST", "/project", `"x"`},
-		{"POST", "/process", "{"}, {"POST", "/process", `{"name": 5}`}, {"POST", "/process", `{"name": "nosuch", "replica_name": "nosuch", "command": "simproc nosuch"}`}, {"POST", "/process", "[1]"},
+		{"POST", "/process", "{"}, {"POST", "/process", `{"name": 5}`}, {"POST", "/process", `{"name": "nosuch", "replica_name": "nosuch", "command": "simproc nosuch"}`}, {"POST", "/process", "[1]"}, {"POST", "/process", "null"}, {"POST", "/process", " null "},
 		{"PATCH", "/processes/stop", "{"}, {"PATCH", "/processes/stop", `[1,2]`}, {"PATCH", "/processes/stop", ``}, {"PATCH", "/processes/stop", `{"a":"b"}`},
 		{"GET", "/process/logs/" + valid + "/1", ""}, {"DELETE", "/process/" + valid, ""}, {"GET", "/nosuchroute", ""},
 	}
